@@ -198,6 +198,9 @@ def param_list(ctx, pairs):
                     for who in ('client', 'server'):
                         ps.append(dict(base_p, c2s=2, s2c=2, disconnect=who))
                         ps.append(dict(base_p, c2s=1, s2c=1, idle=2, disconnect=who))
+                        # a full batch (and one more) in flight, then a hang-up half a heartbeat later
+                        ps.append(dict(base_p, c2s=0, s2c=17, atonce=True, idle=0.5, disconnect=who))
+                        ps.append(dict(base_p, c2s=16, s2c=16, atonce=True, idle=0.5, disconnect=who))
     return ps
 
 
